@@ -550,7 +550,7 @@ pub fn run(prop: &str) {
             }
         }
     }
-    let budget = mc::budget(thorough, 45.0, 1.0);
+    let budget = mc::budget(thorough, 30.0, 0.6);
     let depth: usize = std::env::var("VERIF_DEPTH").ok().and_then(|v| v.parse().ok()).unwrap_or(if thorough { 40 } else { 6 });
     let start = clock::wall();
     let (mut states, mut trans, mut execs) = (0u64, 0u64, 0u64);
@@ -590,6 +590,24 @@ pub fn run(prop: &str) {
         }
         found.extend(vio);
     }
+    // service level: the real Discv5::find_node / find_node_predicate over a scripted handler
+    let svc = crate::lookup::search(thorough, mc::budget(thorough, 25.0, 0.4));
+    rep.set("service_level_states", svc.states);
+    rep.set("service_level_executions", svc.executions);
+    for (k, v) in &svc.counters {
+        rep.set(&format!("service_activations_{k}"), *v);
+    }
+    states += svc.states;
+    trans += svc.transitions;
+    execs += svc.executions;
+    if !svc.exhaustive {
+        exhaustive_all = false;
+        caps.push("service-level lookup search hit its wall budget".to_string());
+    }
+    for s in svc.samples.into_iter().take(2) {
+        rep.sample(s);
+    }
+    found.extend(svc.violations);
     rep.set("states", states);
     rep.set("transitions", trans);
     rep.set("traces_validated_against_impl", execs);
@@ -607,7 +625,7 @@ pub fn run(prop: &str) {
         rep.set(&format!("activations_{k}"), *v);
     }
     rep.set("rule", "explicit-state BFS over event histories {poll, success(p, reported set ≤ 2 incl. the target id, duplicates, closer/farther), failure(p), peer-timeout, query-timeout} on the real FindNodeQuery / PredicateQuery / QueryPool; state = history re-executed on a fresh query; fingerprint = per-peer state (instants scrubbed to elapsed?/not) + harness ledger; every state is additionally run to completion by the default policy and the result clauses evaluated there");
-    rep.assume("component level: the service-level part (FINDNODE requests emitted by a real Service over a scripted handler) is engine ssim");
+    rep.assume("service level (real Discv5::find_node / find_node_predicate over a scripted handler): every emitted request eventually gets a response or a failure report from the handler (C04's guarantee); the pool is only polled when the service task wakes, so time passing is followed by a neutral wake-up");
     rep.assume("quick tier bounds the history depth; states beyond the bound are still run to completion by the default policy");
     for v in found {
         let is_c10 = v.key.starts_with("c10:");
